@@ -266,3 +266,25 @@ s("C10", "perm-of-test", NV, "            v1_shuffle = np.random.permutation(v_r
 s("C10", "split-at-sample2", NS, "inverted_indices[: len(sample1)], inverted_indices[len(sample1) :]", "inverted_indices[: len(sample2)], inverted_indices[len(sample2) :]", "PARTITION")
 b(["C10", "C18"], "distance-abs-flip", NS, "d_nnps = np.sum(np.abs(M_s1 - M_s2) / (M_s1 + M_s2))", "d_nnps = np.sum(np.abs(M_s2 - M_s1) / (M_s2 + M_s1))")
 b(["C10", "C17"], "decision-flip", NV, "        if d_act > theta_drift:", "        if theta_drift < d_act:")
+
+# ---------------------------------------------------------------- C11
+PCF = DD + "pca_cd.py"
+s("C11", "revert-fix6", PCF, "            else:\n                next_obs = pd.DataFrame(X)\n", "", "DA")
+s2("C11", "revert-fix9", PCF, [("                        self.lower[i] = min(", "                        self.lower = min("), ("                        self.upper[i] = max(", "                        self.upper = max(")], "PER-COMPONENT")
+s("C11", "score-min", PCF, "                change_score = max(change_scores)", "                change_score = min(change_scores)", "FRM")
+s("C11", "ph-threshold-10pct", PCF, "        self.ph_threshold = round(0.01 * window_size)", "        self.ph_threshold = round(0.1 * window_size)", "FRM")
+s("C11", "intersection-not-complement", PCF, "        divergence = 1 - intersection\n", "        divergence = intersection\n", "FRM")
+s("C11", "monitor-not-reset", PCF, "                self.reset()\n                self._drift_detection_monitor.reset()\n", "                self.reset()\n", "MC")
+s("C11", "schedule-inverted", PCF, "            if (((self.total_samples - 1) % self.step) == 0) and (", "            if (((self.total_samples - 1) % self.step) != 0) and (", "GRD")
+s("C11", "no-inverse-transform", PCF, "                    self._reference_window = pd.DataFrame(\n                        self._reference_scaler.inverse_transform(self._reference_window)\n                    )\n", "                    pass\n", "PAIR")
+s("C11", "winsor-discarded", PCF, "                    if next_proj.iloc[0, i] < self.lower[i]:\n                        next_proj.iloc[0, i] = self.lower[i]\n", "                    if next_proj.iloc[0, i] < self.lower[i]:\n                        pass\n", "FRM")
+s("C11", "test-hist-own-range", PCF, "                            self._test_pca_projection.iloc[:, i],\n                            bins=self.bins,\n                            bin_range=(self.lower[i], self.upper[i]),", "                            self._test_pca_projection.iloc[:, i],\n                            bins=self.bins,\n                            bin_range=(self._test_pca_projection.iloc[:, i].min(), self.upper[i]),", "AGREE-support")
+s("C11", "raw-obs-scaled-anyway", PCF, "            else:\n                next_obs = pd.DataFrame(X)\n", "            else:\n                next_obs = pd.DataFrame(X - X.mean())\n", "FRM")
+s("C11", "reference-from-reference", PCF, "                self._reference_window = self._test_window.copy()", "                self._reference_window = self._reference_window.copy()", "PAIR")
+s("C11", "monitor-burnin", PCF, "            delta=self.delta, threshold=self.ph_threshold, burn_in=0\n", "            delta=self.delta, threshold=self.ph_threshold, burn_in=30\n", "FWD")
+s("C11", "pca-on-test-window", PCF, "                self._pca.fit(self._reference_window)", "                self._pca.fit(self._test_window)", "FRM")
+s("C11", "drift-without-monitor", PCF, "                if self._drift_detection_monitor.drift_state is not None:\n                    self._build_reference_and_test = True", "                if change_score > 0.5:\n                    self._build_reference_and_test = True", "GRD")
+s("C11", "hist-unnormalised", PCF, '            "density": list(density[0] / np.sum(density[0])),', '            "density": list(density[0]),', "FRM")
+s("C11", "support-reference-only", PCF, "                        self.lower[i] = min(\n                            self._reference_pca_projection.iloc[:, i].min(),\n                            self._test_pca_projection.iloc[:, i].min(),\n                        )", "                        self.lower[i] = min(\n                            self._reference_pca_projection.iloc[:, i].min(),\n                            self._reference_pca_projection.iloc[:, i].min(),\n                        )", "AGREE-support")
+b(["C11"], "intersection-rewrite", PCF, "        divergence = 1 - intersection\n", "        divergence = -intersection + 1\n")
+b(["C11", "C01"], "schedule-flip", PCF, "                (self.total_samples - 1) != 0\n", "                0 != (self.total_samples - 1)\n")
